@@ -53,31 +53,15 @@ def _kv(tokens):
 
 
 def parse_q(body):
-    """'<n> | aid en maxc { f ## t ## c } { ... } | ...' -> {aid: (enabled, maxc, [(fields, text, current)])}"""
-    parts = body.split(" | ")
+    """'<n> | aid en maxc [[ f ## t ## c ]] [[ ... ]] | ...' -> {aid: (enabled, maxc, [(fields, text, current)])}"""
     q = {}
-    for part in parts[1:]:
-        head, _, rest = part.partition(" { ")
+    for part in body.split(" | ")[1:]:
+        head, _, rest = part.partition(" [[ ")
         aid, en, maxc = head.split()[:3]
         trs = []
         if rest:
-            rest = " { " + rest
-            # pending transitions are separated by " } { " at nesting depth 0 -- TESTANY/WAITANY fields nest one level
-            depth, cur, items = 0, "", []
-            toks = rest.split(" ")
-            for tk in toks:
-                if tk == "{":
-                    depth += 1
-                    if depth == 1:
-                        cur = ""
-                        continue
-                elif tk == "}":
-                    depth -= 1
-                    if depth == 0:
-                        items.append(cur.strip())
-                        continue
-                cur += tk + " "
-            for it in items:
+            for it in rest.split(" [[ "):
+                it = it.rsplit(" ]]", 1)[0]
                 f = it.split(" ## ")
                 while len(f) < 3:
                     f.append("-")
@@ -331,24 +315,75 @@ def judge_state(st):
 # ----------------------------------------------------------------------------------------------------------------------
 # C39
 
-def canon_state(st):
-    """State as seen from both sides, comm ids renamed in order of first appearance."""
+def components(st):
+    """State as seen from both sides: ordered list of (name, text), comm ids renamed in order of first appearance.
+    a<i> = VM actor (position, observations, pending comm slots), M/E/V/R/B<i> = kernel mutex / semaphore / condvar / barrier /
+    mailbox, q<aid> = what the checker knows of the actor (enabled, max_considered, pending transitions), p<pid> = the pending
+    simcall as the application describes it."""
     if st is None:
         return None
-    txt = (st.s or "") + " ## "
+    comps = []
+    s = re.sub(r" value=-?\d+", "", st.s or "")   # leftover of the last prepare(): not part of the state
+    m = re.search(r"(^| )(?=p\d+:(?:en|dis):)", s)
+    objs, pend = (s[:m.start()], s[m.end():]) if m else (s, "")
+    for tok in objs.split():
+        comps.append((tok.split(":", 1)[0], tok))
     for aid in sorted(st.q):
         en, maxc, trs = st.q[aid]
-        txt += "%d:%d:%d:" % (aid, en, maxc) + ";".join("%s~%s" % (f, t) for f, t, _c in trs) + " | "
+        comps.append(("q%d" % aid, "%d:%d:" % (en, maxc) + ";".join("%s~%s" % (f, t) for f, t, _c in trs)))
+    for ent in pend.split(" ; "):
+        ent = ent.strip()
+        if ent:
+            comps.append((ent.split(":", 1)[0], ent))
     ren = {}
 
-    def sub(m):
-        v = m.group(1)
+    def sub(mm):
+        v = mm.group(1)
         if v == "0":
             return "comm=0"
         if v not in ren:
             ren[v] = "c%d" % len(ren)
         return "comm=" + ren[v]
-    return re.sub(r"comm=(\d+)", sub, txt)
+    return [(n, re.sub(r"comm=(\d+)", sub, t)) for n, t in comps]
+
+
+def canon_state(st):
+    c = components(st)
+    return None if c is None else " ".join(t for _n, t in c)
+
+
+def diff_class(st1, st2):
+    """Names the first difference between two states, program-visible parts first."""
+    c1, c2 = components(st1), components(st2)
+    d1, d2 = dict(c1), dict(c2)
+    names = [n for n, _ in c1] + [n for n, _ in c2 if n not in d1]
+    order = {"a": 0, "M": 1, "E": 1, "V": 1, "R": 1, "B": 1, "q": 2, "p": 3}
+    names.sort(key=lambda n: order.get(n[0], 4))
+    for n in names:
+        x, y = d1.get(n), d2.get(n)
+        if x == y:
+            continue
+        if x is None or y is None:
+            return "actors"
+        if n[0] == "a":
+            fx, fy = x.split(":"), y.split(":")
+            if fx[1][:1] != fy[1][:1] or fx[1] != fy[1]:
+                return "position"
+            if fx[2] != fy[2]:
+                return "observations"
+            return "comm-slots"
+        if n[0] in "MEVRB":
+            return {"M": "mutex", "E": "semaphore", "V": "condvar", "R": "barrier", "B": "mailbox"}[n[0]]
+        if n[0] == "q":
+            hx, hy = x.split(":", 2), y.split(":", 2)
+            ty = ttype(hx[2].split("~")[0]) if hx[2] else "?"
+            if hx[0] != hy[0]:
+                return "enabled(%s)" % ty
+            if hx[1] != hy[1]:
+                return "alternatives(%s)" % ty
+            return "pending(%s)" % ty
+        return "app-pending"
+    return "none"
 
 
 VIEWS = ("sleep", "o12", "o21")
@@ -395,7 +430,7 @@ def judge_pair(p):
     c1, c2 = canon_state(b1.states[-1]), canon_state(b2.states[-1])
     info["commutes"] = c1 == c2
     if indep and c1 != c2:
-        bad.append(("noncommute", kinds, "declared independent (%s) but the two orders lead to different states:\n after %s ; %s:\n   %s\n after %s ; %s:\n   %s"
+        bad.append(("noncommute:" + diff_class(b1.states[-1], b2.states[-1]), kinds, "declared independent (%s) but the two orders lead to different states:\n after %s ; %s:\n   %s\n after %s ; %s:\n   %s"
                     % (",".join(info["indep_views"]), b1.execs[0].c_fields, b1.execs[1].c_fields, c1,
                        b2.execs[0].c_fields, b2.execs[1].c_fields, c2)))
     return info, bad
